@@ -25,6 +25,16 @@ def chars(bytestring):
     return "".join(chr(byte) for byte in bytestring)
 
 
+def _lookup(encoding):
+    """Codec for an encoding named by a BOM, an @charset rule or the caller.
+    Only text encodings count: rot13, base64, zlib etc. (and this codec itself)
+    are codecs, but no encodings a style sheet can be written in."""
+    info = codecs.lookup(encoding)
+    if not getattr(info, '_is_text_encoding', True) or info.name == 'css':
+        raise LookupError('not a text encoding: %s' % encoding)
+    return info
+
+
 def detectencoding_str(input, final=False):  # noqa: C901
     """
     Detect the encoding of the byte string ``input``, which contains the
@@ -239,7 +249,7 @@ def decode(input, errors="strict", encoding=None, force=True):
             encoding = _encoding
 
     # NEEDS: change in parse.py (str to bytes!)
-    (input, consumed) = codecs.getdecoder(encoding)(input, errors)
+    (input, consumed) = _lookup(encoding).decode(input, errors)
     return (_fixencoding(input, str(encoding), True), consumed)
 
 
@@ -253,7 +263,7 @@ def encode(input, errors="strict", encoding=None):
         input = _fixencoding(input, str(encoding), True)
     if encoding == "css":
         raise ValueError("css not allowed as encoding name")
-    encoder = codecs.getencoder(encoding)
+    encoder = _lookup(encoding).encode
     return (encoder(input, errors)[0], consumed)
 
 
@@ -316,7 +326,7 @@ class IncrementalDecoder(codecs.IncrementalDecoder):
                 ) or self.encoding is None:  # Take the encoding from the input
                     self.encoding = encoding
             self.buffer = ""  # drop buffer, as the decoder might keep its own
-            decoder = codecs.getincrementaldecoder(self.encoding)
+            decoder = _lookup(self.encoding).incrementaldecoder
             self.decoder = decoder(self._errors)
         if self.headerfixed:
             return self.decoder.decode(input, final)
@@ -370,7 +380,7 @@ class IncrementalDecoder(codecs.IncrementalDecoder):
         self.buffer = state[1]
         self.headerfixed = state[2]
         if state[3] is not None:
-            self.decoder = codecs.getincrementaldecoder(self.encoding)(self._errors)
+            self.decoder = _lookup(self.encoding).incrementaldecoder(self._errors)
             self.decoder.setstate(state[4])
         else:
             self.decoder = None
@@ -414,7 +424,7 @@ class IncrementalEncoder(codecs.IncrementalEncoder):
             if self.encoding is not None:
                 if self.encoding == "css":
                     raise ValueError("css not allowed as encoding name")
-                info = codecs.lookup(self.encoding)
+                info = _lookup(self.encoding)
                 encoding = self.encoding
                 if self.encoding.replace("_", "-").lower() == "utf-8-sig":
                     input = _fixencoding(input, "utf-8", True)
@@ -453,7 +463,7 @@ class IncrementalEncoder(codecs.IncrementalEncoder):
         self.encoding = state[0]
         self.buffer = state[1]
         if state[2] is not None:
-            self.encoder = codecs.getincrementalencoder(self.encoding)(self._errors)
+            self.encoder = _lookup(self.encoding).incrementalencoder(self._errors)
             self.encoder.setstate(state[4])
         else:
             self.encoder = None
@@ -488,7 +498,7 @@ class StreamWriter(codecs.StreamWriter):
             if self.encoding is not None:
                 if self.encoding == "css":
                     raise ValueError("css not allowed as encoding name")
-                self.streamwriter = codecs.getwriter(self.encoding)(
+                self.streamwriter = _lookup(self.encoding).streamwriter(
                     self.stream, self._errors
                 )
                 encoding = self.encoding
@@ -537,7 +547,7 @@ class StreamReader(codecs.StreamReader):
                     explicit and not self.force
                 ) or self.encoding is None:  # Take the encoding from the input
                     self.encoding = encoding
-            streamreader = codecs.getreader(self.encoding)
+            streamreader = _lookup(self.encoding).streamreader
             streamreader = streamreader(self.stream, self._errors)
             (output, consumed) = streamreader.decode(input, errors)
             encoding = self.encoding
